@@ -2,7 +2,10 @@ package props
 
 import (
 	"fmt"
+	"io/fs"
+	"reflect"
 	"strings"
+	"time"
 
 	"verifharness/core"
 	"verifharness/oracle"
@@ -22,7 +25,40 @@ type c04Text struct {
 	Entry string `json:"entry"` // str | file | vue
 }
 
-var c04TextKinds = []string{"slice", "[]string", "[]int", "[3]string", "[]map"}
+// the later kinds print differently from their underlying values: the item bound
+// in an instance is the element itself, not a converted copy
+var c04TextKinds = []string{"slice", "[]string", "[]int", "[3]string", "[]map", "[]float32", "[3]float32", "[]Duration", "[]Month", "[]NamedString", "[]Stringer", "[]uint8", "[]FileMode"}
+
+// c04TextTyped returns a typed collection of n (<=3) elements and the text each element prints as.
+func c04TextTyped(kind string, n int) (any, []string, bool) {
+	var coll any
+	switch kind {
+	case "[]float32":
+		coll = []float32{0.1, 3.14, 2.5}[:n]
+	case "[3]float32":
+		coll = [3]float32{0.1, 3.14, 2.5}
+	case "[]Duration":
+		coll = []time.Duration{1500 * time.Millisecond, 2 * time.Minute, 0}[:n]
+	case "[]Month":
+		coll = []time.Month{time.January, time.March, time.December}[:n]
+	case "[]NamedString":
+		coll = []NamedString{"aa", "bb", "cc"}[:n]
+	case "[]Stringer":
+		coll = []TextStringer{{"s1"}, {"s2"}, {"s3"}}[:n]
+	case "[]uint8":
+		coll = []uint8{65, 66, 200}[:n]
+	case "[]FileMode":
+		coll = []fs.FileMode{0o644, 0o755 | fs.ModeDir, 0}[:n]
+	default:
+		return nil, nil, false
+	}
+	rv := reflect.ValueOf(coll)
+	var vals []string
+	for k := 0; k < rv.Len(); k++ {
+		vals = append(vals, fmt.Sprint(rv.Index(k).Interface()))
+	}
+	return coll, vals, true
+}
 var c04TextBodies = []string{"text", "text+if", "comment", "mixed"}
 var c04TextElses = []string{"none", "imm", "ws", "comment"}
 
@@ -45,15 +81,18 @@ func c04BuildText(i int) c04Case {
 func c04ExecText(c c04Case, o *core.Obs) {
 	t := c.Text
 	n := t.Len
-	if t.Kind == "[3]string" && n >= 0 {
+	if (t.Kind == "[3]string" || t.Kind == "[3]float32") && n >= 0 {
 		n = 3
 	}
+	typed, typedVals, isTyped := c04TextTyped(t.Kind, max(n, 0))
 	items := []string{"aa", "bb", "cc"}
 	var coll any
 	switch {
 	case t.Len == -1:
 		coll = nil
 	case t.Len == -2:
+	case isTyped:
+		coll = typed
 	default:
 		switch t.Kind {
 		case "slice":
@@ -85,6 +124,9 @@ func c04ExecText(c c04Case, o *core.Obs) {
 		data["xs"] = coll
 	}
 	val := func(k int) string {
+		if isTyped {
+			return typedVals[k]
+		}
 		if t.Kind == "[]int" {
 			return fmt.Sprint(10 + k)
 		}
